@@ -50,7 +50,11 @@ func callSSA(i *interpreter, caller *frame, callpos token.Pos, fn *ssa.Function,
 		case fnZV:
 			return i.zvCall(fr, fn, args)
 		case fnForeign:
-			return i.ffiCall(fr, fn, args)
+			if !(forceInterp[name] && fn.Blocks != nil && interpretForeign(fn, args)) {
+				return i.ffiCall(fr, fn, args)
+			}
+			// a small, pure standard-library function executed from its SSA
+			// because symbolic data flows through it
 		}
 		if fn.Blocks == nil {
 			panic(pathAbort{abortUnsupported, "no code for function: " + name})
